@@ -892,6 +892,9 @@ func genC12(c *Ctx) {
 		b.cert(id, nil, o1, true)
 		pgpInspect(c, "C12", "direct-key-signature", false, b.stream, b.ref(1), plain)
 	}
+	// ---- streams beyond the plain transferable key: packets to skip, partial / indeterminate lengths,
+	//      trailing octets, user attributes, v3 material, message packets, unknown subpackets ----
+	pgpBeyond(c, "C12")
 	// ---- malformed stream derived from valid keys (no reference: the model must agree, nothing may panic) ----
 	pgpMalformed(c)
 	// ---- keys produced by GnuPG, GnuPG's own listing as the reference ----
@@ -1363,6 +1366,7 @@ func genC11(c *Ctx) {
 	plain := armorStyle{}
 	// corpus: identities whose user ID has white space at the ends, is empty, very long or not UTF-8
 	oddUserIDKeys(c, "C11")
+	pgpBeyond(c, "C11")
 	keys := c11Keys(c)
 	sample := 2000
 	for ki, k := range keys {
@@ -1606,5 +1610,419 @@ func c11Structural(c *Ctx) {
 		b.binding(0, bindingOpts(p, 8, 1600000050, 0x04, nil), false, false, nil, false)           // older: ignored
 		b.binding(0, bindingOpts(p, 8, 1600000200, 0x08, u32p(86400*30)), false, false, nil, true) // newer: replaces
 		pgpInspect(c, "C11", "structural:rebinding-by-creation-time", false, b.stream, SL{I(0), b.ref(1)}, plain)
+	}
+}
+
+// ---------- streams beyond the plain transferable key (C11 and C12) ----------
+
+// pgpPartialPacket frames body with partial body lengths (RFC 4880 4.2.2.4): a first part of
+// 2^pow octets, further parts of 2^pow2 octets, the last part with a definite length.
+func pgpPartialPacket(tag int, body []byte, pow, pow2 int) []byte {
+	out := []byte{byte(0xC0 | tag)}
+	n := 1 << pow
+	for len(body) >= n {
+		out = append(out, byte(224+pow))
+		out = append(out, body[:n]...)
+		body = body[n:]
+		pow = pow2
+		n = 1 << pow
+	}
+	switch {
+	case len(body) < 192:
+		out = append(out, byte(len(body)))
+	default:
+		out = append(out, byte((len(body)-192)>>8+192), byte(len(body)-192))
+	}
+	return append(out, body...)
+}
+
+// pgpIndeterminatePacket: old format, length type 3 - the packet extends to the end of the stream.
+func pgpIndeterminatePacket(tag int, body []byte) []byte {
+	return cat([]byte{byte(0x80 | tag<<2 | 3)}, body)
+}
+
+// reframe rebuilds a stream of definite-length packets, packet i written by f (nil: unchanged).
+func reframe(stream []byte, f func(i int, p rawPacket) []byte) []byte {
+	pk, _ := splitStream(stream)
+	var out []byte
+	for i, p := range pk {
+		if b := f(i, p); b != nil {
+			out = append(out, b...)
+		} else {
+			out = append(out, stream[p.hdrOff:p.end]...)
+		}
+	}
+	return out
+}
+
+// insertAt puts ins in front of packet i (i == number of packets: at the end).
+func insertAt(stream []byte, i int, ins []byte) []byte {
+	pk, _ := splitStream(stream)
+	at := len(stream)
+	if i < len(pk) {
+		at = pk[i].hdrOff
+	}
+	return cat(stream[:at], ins, stream[at:])
+}
+
+// a user attribute packet body (RFC 4880 5.12): one image subpacket with the 16-octet header
+func userAttributeBody(r *Rng, n int) []byte {
+	img := cat([]byte{0x10, 0x00, 0x01, 0x01}, make([]byte, 12), []byte{0xff, 0xd8, 0xff, 0xe0}, r.Bytes(n))
+	return pgpw_subpacket(1, img, false)
+}
+
+// a syntactically well-formed version-3 signature packet body (RFC 4880 5.2.2)
+func v3SigBody(r *Rng, typ byte, dsa bool) []byte {
+	b := cat([]byte{3, 5, typ}, u32(1000000000), r.Bytes(8))
+	if dsa {
+		return cat(b, []byte{17, 2}, r.Bytes(2), mpiOf(r.Bytes(20)), mpiOf(r.Bytes(20)))
+	}
+	return cat(b, []byte{1, 2}, r.Bytes(2), mpiOf(r.Bytes(128)))
+}
+
+// a well-formed version-3 RSA public key packet body (RFC 4880 5.5.2)
+func v3KeyBody(r *Rng) []byte {
+	n := r.Bytes(128)
+	n[0] |= 0x80
+	n[127] |= 1
+	return cat([]byte{3}, u32(900000000), u16(0), []byte{1}, mpiOf(n), mpiOf([]byte{1, 0, 1}))
+}
+
+type beyondExpect int
+
+const (
+	expStrict   beyondExpect = iota // the description is exactly the reference
+	expTolerant                     // the reference, or the key is rejected
+	expFree                         // no reference: no panic, model and implementation agree
+)
+
+func pgpBeyond(c *Ctx, prop string) {
+	plain := armorStyle{}
+	emit := func(tag string, b *entBuilder, stream []byte, e beyondExpect) {
+		var extra Sx
+		switch {
+		case e == expFree && prop == "C11":
+			extra = SL{I(9)}
+		case e == expFree:
+			extra = SL{I(0)}
+		case prop == "C11":
+			extra = SL{I(0), b.ref(map[beyondExpect]int{expStrict: 1, expTolerant: 4}[e])}
+		default:
+			extra = b.ref(map[beyondExpect]int{expStrict: 1, expTolerant: 4}[e])
+		}
+		pgpInspect(c, prop, "beyond-"+tag, b.secret, stream, extra, plain)
+	}
+	vanish := func(tag string, b *entBuilder, stream []byte, names []string, subs []*pkey) {
+		if prop != "C11" {
+			pgpInspect(c, prop, "beyond-"+tag, b.secret, stream, SL{I(0)}, plain)
+			return
+		}
+		ns, fs := SL{}, SL{}
+		for _, n := range names {
+			ns = append(ns, S(n))
+		}
+		for _, s := range subs {
+			fs = append(fs, SB(s.fpr()))
+		}
+		pgpInspect(c, prop, "beyond-"+tag, b.secret, stream, SL{I(1), ns, fs, Bool(false), S(tag), I(0)}, plain)
+	}
+	mk := func(seed uint64, pi int, subIdx []int, secret bool, nIDs int, format int) *entBuilder {
+		r := NewRng(seed)
+		pa, sa := primaryAlgos(), subkeyAlgos()
+		var subs []algoChoice
+		for _, j := range subIdx {
+			subs = append(subs, sa[j])
+		}
+		primary := pa[pi].mk(1500000000+uint32(seed%1000), r)
+		b := newEnt(primary, secret, r, func() int { return format })
+		for i := 0; i < nIDs; i++ {
+			id := b.uid([]string{"Alice Example <alice@example.org>", "bob", "Carol (work) <carol@example.com>"}[i%3])
+			o := selfSigOpts(primary, 8, 1500000100+uint32(i), []byte{3, 0x23, 1}[i%3], []*uint32{nil, u32p(86400 * 365), u32p(0)}[i%3])
+			o.prefs, o.issuerFpr = false, nil
+			b.cert(id, nil, o, true)
+		}
+		for j, sc := range subs {
+			sk := sc.mk(1500000200+uint32(j), r)
+			flags := byte(0x0c)
+			if sk.algo == 22 || sk.algo == 19 || sk.algo == 17 {
+				flags = 0x02
+			}
+			o := bindingOpts(primary, 8, 1500000300+uint32(j), flags, []*uint32{nil, u32p(86400 * 30)}[j%2])
+			o.issuerFpr = nil
+			b.subkey(sk, o, flags&2 != 0, j%2 == 0, nil)
+		}
+		return b
+	}
+
+	// ---- corpus F40: the same signature packet with two trailing octets (the header of a private-use
+	//      packet that would swallow the subkey) behind user IDs of three lengths: packet.Read left
+	//      the octets in the stream or not, depending on the position modulo the base64 quantum ----
+	for pad := 0; pad < 3; pad++ {
+		r := NewRng(0xF40)
+		primary := newEdDSAKey(1600000000, r)
+		b := newEnt(primary, false, r, func() int { return 0 })
+		id := b.uid("trailing <t@example.org>" + strings.Repeat("x", pad))
+		o := selfSigOpts(primary, 8, 1600000000, 3, nil)
+		b.cert(id, nil, o, true)
+		sk := newCv25519Key(1600000000, r, kdfSHA256AES128)
+		b.subkey(sk, bindingOpts(primary, 8, 1600000000, 0x0c, nil), false, false, nil)
+		pk, _ := splitStream(b.stream)
+		tail := len(b.stream) - pk[3].hdrOff
+		m := reframe(b.stream, func(i int, p rawPacket) []byte {
+			if i == 2 {
+				return pgpPacket(2, cat(p.body, []byte{0xFC, byte(tail)}), 0)
+			}
+			return nil
+		})
+		emit("corpus-F40-trailing-octets-in-signature", b, m, expTolerant)
+	}
+
+	bases := []*entBuilder{
+		mk(0xB001+c.R.U64()%7, 0, []int{0, 8}, false, 2, 0),
+		mk(0xB002+c.R.U64()%7, 1, []int{1}, false, 1, 3),
+		mk(0xB003+c.R.U64()%7, 8, []int{4}, false, 2, 3),
+		mk(0xB004+c.R.U64()%7, 0, []int{0}, true, 1, 0),
+		mk(0xB005+c.R.U64()%7, 4, []int{6}, false, 1, 1),
+	}
+	r := NewRng(c.R.U64())
+
+	for bi, b := range bases {
+		tag := func(s string) string { return s + ":" + strconv.Itoa(bi) }
+		pk, _ := splitStream(b.stream)
+		np := len(pk)
+		// ---- A: packets a key reader must skip (RFC 4880 5.8 marker, 5.10 trust, private / unassigned types)
+		//      at every position, in every header format incl. partial lengths ----
+		for i := 1; i <= np; i++ {
+			var ins []byte
+			switch i % 5 {
+			case 0:
+				ins = pgpPacket(10, []byte("PGP"), []int{0, 3}[i%2])
+			case 1:
+				ins = pgpPacket(12, r.Bytes(1+r.Intn(4)), []int{0, 3, 4}[i%3])
+			case 2:
+				ins = pgpPartialPacket(60+i%4, r.Bytes(700), 9, 6)
+			case 3:
+				ins = cat(pgpPacket(10, []byte("PGP"), 3), pgpPacket(12, []byte{0x78, 0x00}, 3), pgpPacket(15, nil, 0))
+			default:
+				ins = pgpPartialPacket(12, r.Bytes(5), 1, 0)
+			}
+			emit(tag("skipped-packets"), b, insertAt(b.stream, i, ins), expStrict)
+		}
+		emit(tag("marker-first"), b, cat(pgpPacket(10, []byte("PGP"), 3), b.stream), expStrict)
+		emit(tag("indeterminate-unknown-packet-last"), b, cat(b.stream, pgpIndeterminatePacket(12, r.Bytes(40))), expStrict)
+		// a skipped packet whose body ends early: the key in front of it is complete
+		emit(tag("truncated-trust-packet-last"), b, cat(b.stream, pgpPacket(12, r.Bytes(40), 3)[:20]), expTolerant)
+
+		// ---- B: the packets of the key itself with partial body lengths and an indeterminate length
+		//      (RFC 4880 4.2.2.4 allows partial lengths for data packets only: a reader may reject) ----
+		for _, pows := range [][2]int{{0, 0}, {1, 3}, {5, 2}, {7, 7}} {
+			for only := -1; only < np; only += 2 {
+				m := reframe(b.stream, func(i int, p rawPacket) []byte {
+					if only >= 0 && i != only {
+						return nil
+					}
+					return pgpPartialPacket(p.tag, p.body, pows[0], pows[1])
+				})
+				emit(tag("partial-lengths"), b, m, expTolerant)
+			}
+		}
+		emit(tag("last-packet-indeterminate"), b, reframe(b.stream, func(i int, p rawPacket) []byte {
+			if i == np-1 {
+				return pgpIndeterminatePacket(p.tag, p.body)
+			}
+			return nil
+		}), expTolerant)
+		// an indeterminate length in the middle swallows the rest of the key
+		for i := 1; i < np-1; i++ {
+			emit(tag("indeterminate-in-the-middle"), b, reframe(b.stream, func(j int, p rawPacket) []byte {
+				if j == i {
+					return pgpIndeterminatePacket(p.tag, p.body)
+				}
+				return nil
+			}), expFree)
+		}
+		// partial lengths that end early or whose continuation length is missing
+		for i := 0; i < np; i++ {
+			pp := pgpPartialPacket(pk[i].tag, pk[i].body, 4, 3)
+			emit(tag("partial-truncated"), b, cat(b.stream[:pk[i].hdrOff], pp[:len(pp)-1-r.Intn(len(pp)/2)]), expFree)
+			cut := 18
+			if cut > len(pp) {
+				cut = len(pp)
+			}
+			emit(tag("partial-then-garbage"), b, cat(b.stream[:pk[i].hdrOff], pp[:cut], []byte{0xff, 0x00}, b.stream[pk[i].end:]), expFree)
+		}
+
+		// ---- C: key and signature packets that are longer than their content ----
+		for i := 0; i < np; i++ {
+			if pk[i].tag == 13 {
+				continue
+			}
+			for _, extra := range [][]byte{{0}, r.Bytes(1 + r.Intn(6)), {0xFC, byte(len(b.stream) - pk[i].end)}, cat(pgpPacket(13, []byte("smuggled"), 3), r.Bytes(3))} {
+				if len(extra) == 2 && extra[0] == 0xFC && len(b.stream)-pk[i].end > 191 {
+					extra = cat([]byte{0xFC, 0xFF}, u32(uint32(len(b.stream)-pk[i].end)))
+				}
+				if b.secret && (pk[i].tag == 5 || pk[i].tag == 7) {
+					continue // the secret part takes everything up to the end of the packet
+				}
+				m := reframe(b.stream, func(j int, p rawPacket) []byte {
+					if j == i {
+						return pgpPacket(p.tag, cat(p.body, extra), []int{0, 3, 4}[(i+len(extra))%3])
+					}
+					return nil
+				})
+				emit(tag("trailing-octets-in-packet"), b, m, expTolerant)
+			}
+		}
+
+		// ---- D: user attributes, version-3 material, packets of OpenPGP messages inside the key block ----
+		uat := userAttributeBody(r, 40+r.Intn(200))
+		{
+			// behind the last user ID's signatures, with its own certification (hash: 0xD1, 4-octet length, body)
+			prefix := cat(b.primary.hashInput(), []byte{0xd1}, u32(uint32(len(uat))), uat)
+			o := selfSigOpts(b.primary, 8, 1500000500, 3, nil)
+			o.prefs, o.issuerFpr = false, nil
+			sig, _ := makeSig(b.primary, prefix, o, r)
+			at := 1 + 2*len(b.ids)
+			emit(tag("user-attribute-with-certification"), b, insertAt(b.stream, at, cat(pgpPacket(17, uat, 3), pgpPacket(2, sig, 3))), expStrict)
+			emit(tag("user-attribute-partial-length"), b, insertAt(b.stream, at, cat(pgpPartialPacket(17, uat, 4, 5), pgpPacket(2, sig, 0))), expStrict)
+			emit(tag("user-attribute-last"), b, cat(b.stream, pgpPacket(17, uat, 4), pgpPacket(2, sig, 0)), expStrict)
+			emit(tag("user-attribute-empty"), b, insertAt(b.stream, at, pgpPacket(17, nil, 3)), expTolerant)
+			emit(tag("user-attribute-malformed"), b, insertAt(b.stream, at, pgpPacket(17, []byte{5, 1, 0}, 3)), expFree)
+			emit(tag("user-attribute-zero-length-subpacket"), b, insertAt(b.stream, at, pgpPacket(17, []byte{0}, 3)), expFree)
+			// a user attribute between a user ID and its certification takes the certification away from the user ID
+			vanish(tag("user-attribute-between-uid-and-certification"), b, insertAt(b.stream, 2, pgpPacket(17, uat, 3)), []string{b.ids[0].name}, nil)
+		}
+		{
+			v3s := pgpPacket(2, v3SigBody(r, 0x10, bi%2 == 0), []int{0, 3}[bi%2])
+			emit(tag("v3-certification-behind-self-signature"), b, insertAt(b.stream, 3, v3s), expStrict)
+			emit(tag("v3-certification-last"), b, cat(b.stream, v3s), expStrict)
+			emit(tag("v3-certification-before-self-signature"), b, insertAt(b.stream, 2, v3s), expFree)
+			for _, bad := range [][]byte{{3}, {3, 4}, {2, 5, 0x10}, {1, 5}, {0}, cat([]byte{3, 5, 0x10}, u32(1), make([]byte, 8), []byte{16, 2, 0, 0, 0, 1, 1}), cat([]byte{3, 5, 0x10}, u32(1), make([]byte, 8), []byte{1, 99, 0, 0, 0, 1, 1})} {
+				emit(tag("v3-signature-malformed"), b, insertAt(b.stream, 3, pgpPacket(2, bad, 3)), expFree)
+			}
+			v3k := v3KeyBody(r)
+			emit(tag("v3-subkey-packet"), b, cat(b.stream, pgpPacket(14, v3k, 0)), expTolerant)
+			emit(tag("v3-key-first"), b, cat(pgpPacket(6, v3k, 0), b.stream), expFree)
+			emit(tag("v3-key-short-modulus"), b, cat(b.stream, pgpPacket(14, cat([]byte{3}, u32(1), u16(0), []byte{1}, mpiOf([]byte{1, 2, 3}), mpiOf([]byte{3})), 0)), expFree)
+			emit(tag("v3-key-version-2"), b, cat(b.stream, pgpPacket(6, cat([]byte{2}, v3k[1:]), 0)), expFree)
+			emit(tag("v3-key-dsa"), b, cat(b.stream, pgpPacket(14, cat(v3k[:7], []byte{17}, v3k[8:]), 0)), expFree)
+		}
+		{
+			enc := cat([]byte{3}, r.Bytes(8), []byte{1}, mpiOf(r.Bytes(128)))
+			ske := cat([]byte{4, 7, 3, 8}, r.Bytes(8), []byte{0x60})
+			ops := cat([]byte{3, 0, 8, 1}, r.Bytes(8), []byte{1})
+			for i, m := range [][]byte{pgpPacket(1, enc, 3), pgpPacket(3, ske, 3), pgpPacket(4, ops, 0), pgpPacket(3, cat(ske, r.Bytes(32)), 3), pgpPacket(1, cat([]byte{3}, r.Bytes(8), []byte{16}, mpiOf(r.Bytes(8)), mpiOf(r.Bytes(8)), r.Bytes(5)), 3)} {
+				emit(tag("message-packet-behind-the-key"), b, cat(b.stream, m), expTolerant)
+				emit(tag("message-packet-inside-the-key"), b, insertAt(b.stream, 3, m), expTolerant)
+				_ = i
+			}
+			for _, m := range [][]byte{
+				pgpPacket(1, cat([]byte{2}, enc[1:]), 3), pgpPacket(1, enc[:12], 3), pgpPacket(1, enc[:9], 3),
+				pgpPacket(3, []byte{4, 7}, 3), pgpPacket(3, []byte{4, 7, 3}, 3), pgpPacket(3, []byte{4, 7, 3, 8}, 3), pgpPacket(3, []byte{4, 7, 1, 8}, 3), pgpPacket(3, []byte{4, 7, 0, 8}, 3),
+				pgpPacket(3, []byte{4, 7, 3, 8, 1, 2, 3}, 3), pgpPacket(3, []byte{4, 1, 3, 8}, 3), pgpPacket(3, []byte{5, 7, 3, 8}, 3), pgpPacket(3, []byte{4, 7, 2, 8}, 3), pgpPacket(3, []byte{4, 7, 3, 99}, 3),
+				pgpPacket(3, cat(ske, r.Bytes(64)), 3), pgpPacket(3, cat(ske, r.Bytes(63)), 3), pgpPacket(3, ske, 3)[:8],
+				pgpPacket(4, ops[:12], 0), pgpPacket(4, cat([]byte{4}, ops[1:]), 0), pgpPacket(4, cat([]byte{3, 0, 99}, ops[3:]), 0), pgpPacket(4, cat(ops, r.Bytes(3)), 0),
+			} {
+				emit(tag("message-packet-odd"), b, insertAt(b.stream, 3, m), expFree)
+			}
+			// packets whose body is handed out as a stream: the reader goes on INSIDE their body
+			inner := cat(pgpPacket(13, []byte("inside a data packet"), 3), pgpPacket(12, []byte{1}, 3))
+			lit := cat([]byte{'b', 4}, []byte("name"), u32(0), inner)
+			for _, m := range [][]byte{
+				pgpPacket(11, lit, 3), pgpPartialPacket(11, lit, 1, 2), pgpPartialPacket(11, lit, 0, 0), pgpPacket(11, lit[:8], 3), pgpPacket(11, []byte{'t', 0, 0, 0, 0, 0}, 0), pgpPacket(11, []byte{'t'}, 0),
+				pgpPacket(8, cat([]byte{1}, inner), 3), pgpPacket(8, cat([]byte{3}, inner), 0), pgpPacket(8, cat([]byte{0}, inner), 3), pgpPacket(8, nil, 3), pgpPacket(8, []byte{2, 0x78}, 3), pgpPacket(8, cat([]byte{2, 0x79, 0x9c}, inner), 3),
+				pgpPacket(9, inner, 3), pgpPacket(9, nil, 0), pgpPacket(18, cat([]byte{1}, inner), 3), pgpPacket(18, cat([]byte{2}, inner), 3), pgpPacket(18, nil, 3),
+				pgpPartialPacket(8, cat([]byte{1}, inner), 0, 1), pgpPartialPacket(18, cat([]byte{1}, inner), 0, 0),
+			} {
+				emit(tag("data-packet"), b, cat(b.stream, m), expFree)
+				emit(tag("data-packet-inside"), b, insertAt(b.stream, 3, m), expFree)
+			}
+			emit(tag("data-packet-indeterminate"), b, cat(b.stream, pgpIndeterminatePacket(11, lit)), expFree)
+			// a compressed packet with a well-formed zlib header: outside the modelled domain
+			emit(tag("zlib-compressed-packet"), b, cat(b.stream, pgpPacket(8, cat([]byte{2, 0x78, 0x9c}, r.Bytes(30)), 3)), expFree)
+		}
+		// the S2K specifier of a secret subkey or of a passphrase packet ending with the packet: io.EOF
+		if b.secret {
+			for i := 1; i < np; i++ {
+				if pk[i].tag != 7 {
+					continue
+				}
+				pub := b.subs[0].key.body()
+				for _, tail := range [][]byte{{254, 7}, {255, 9}, {254, 7, 3, 8}, {254, 7, 1, 2}, {254, 7, 3}, {254}, {254, 7, 0, 8}, {254, 7, 3, 8, 1, 2, 3, 4, 5, 6, 7, 8, 9}, {253}, nil} {
+					m := reframe(b.stream, func(j int, p rawPacket) []byte {
+						if j == i {
+							return pgpPacket(7, cat(pub, tail), 3)
+						}
+						return nil
+					})
+					emit(tag("secret-subkey-ends-in-s2k"), b, m, expFree)
+				}
+			}
+		}
+	}
+
+	// ---- E: signature subpackets the reader does not know (RFC 4880 5.2.3.1: critical bit) ----
+	for si, sub := range []struct {
+		tag      string
+		sp       []byte
+		unhashed bool
+		critical bool
+	}{
+		{"unknown-critical-hashed", pgpw_subpacket(100|0x80, []byte{1, 2, 3}, false), false, true},
+		{"unknown-critical-unhashed", pgpw_subpacket(101|0x80, []byte{1}, false), true, true},
+		{"unknown-critical-hashed-5-octet-length", pgpw_subpacket(40|0x80, []byte{9}, true), false, true},
+		{"notation-critical", pgpw_subpacket(20|0x80, cat([]byte{0x80, 0, 0, 0}, u16(3), u16(1), []byte("a@bx")), false), false, true},
+		{"unknown-hashed", pgpw_subpacket(100, []byte{1, 2, 3}, false), false, false},
+		{"unknown-unhashed", pgpw_subpacket(101, nil, false), true, false},
+		{"notation", pgpw_subpacket(20, cat([]byte{0x80, 0, 0, 0}, u16(3), u16(1), []byte("a@bx")), false), false, false},
+		{"known-critical", cat(pgpw_subpacket(25|0x80, []byte{1}, false), pgpw_subpacket(3|0x80, u32(0), false), pgpw_subpacket(11|0x80, []byte{9, 7}, false)), false, false},
+		{"features-policy-keyserver", cat(pgpw_subpacket(30|0x80, []byte{1}, false), pgpw_subpacket(26, []byte("https://example.org/policy"), false), pgpw_subpacket(23, []byte{0x80}, false), pgpw_subpacket(24, []byte("hkps://keys.example.org"), false)), false, false},
+	} {
+		for ki, mkp := range []func(r *Rng) *pkey{
+			func(r *Rng) *pkey { return newEdDSAKey(1600000000, r) },
+			func(r *Rng) *pkey { return newRSAKey(0, 1, 1600000000) },
+		} {
+			r := NewRng(uint64(0xE000 + si*2 + ki))
+			p := mkp(r)
+			// on the self-signature of the second identity
+			b := newEnt(p, false, r, func() int { return 3 * ki })
+			id := b.uid("good <good@example.org>")
+			b.cert(id, nil, selfSigOpts(p, 8, 1600000000, 3, nil), true)
+			id = b.uid("subpacket <sp@example.org>")
+			o := selfSigOpts(p, 8, 1600000000, 0x23, u32p(86400))
+			if sub.unhashed {
+				o.extraUnhashed = [][]byte{sub.sp}
+			} else {
+				o.extraHashed = [][]byte{sub.sp}
+			}
+			b.cert(id, nil, o, !sub.critical)
+			sk := newCv25519Key(1600000000, r, kdfSHA256AES128)
+			b.subkey(sk, bindingOpts(p, 8, 1600000000, 0x0c, nil), false, false, nil)
+			if sub.critical {
+				vanish("subpacket-on-certification:"+sub.tag, b, b.stream, []string{"subpacket <sp@example.org>"}, nil)
+			} else {
+				emit("subpacket-on-certification:"+sub.tag, b, b.stream, expStrict)
+			}
+			// on the binding signature of the subkey
+			b = newEnt(p, false, r, func() int { return 3 * ki })
+			id = b.uid("good <good@example.org>")
+			b.cert(id, nil, selfSigOpts(p, 8, 1600000000, 3, nil), true)
+			sk = newCv25519Key(1600000000, r, kdfSHA256AES128)
+			bo := bindingOpts(p, 8, 1600000000, 0x0c, u32p(86400*7))
+			if sub.unhashed {
+				bo.extraUnhashed = [][]byte{sub.sp}
+			} else {
+				bo.extraHashed = [][]byte{sub.sp}
+			}
+			if sub.critical {
+				b.subs = append(b.subs, pgpSubRef{key: sk})
+				b.keyPacket(sk, true, 0)
+				b.binding(0, bo, false, false, nil, false)
+				vanish("subpacket-on-binding:"+sub.tag, b, b.stream, nil, []*pkey{sk})
+			} else {
+				b.subkey(sk, bo, false, false, nil)
+				emit("subpacket-on-binding:"+sub.tag, b, b.stream, expStrict)
+			}
+		}
 	}
 }
